@@ -1,0 +1,27 @@
+//go:build verif
+
+package writer
+
+// verifDirty returns a bitmask of what a recycled writer state still carries (0 = clean).
+func (s *writerState) verifDirty() int64 {
+	var m int64
+	if s.buf != nil {
+		m |= 1
+	}
+	if len(s.stack.stack) != 0 {
+		m |= 2
+	}
+	if len(s.elements.stack) != 0 {
+		m |= 4
+	}
+	if len(s.fields.stack) != 0 {
+		m |= 8
+	}
+	if s.releaseState {
+		m |= 16
+	}
+	if s.releaseWriter {
+		m |= 32
+	}
+	return m
+}
